@@ -2,7 +2,7 @@
 import itertools, json, os
 from . import common, poolsfam
 
-CLASSES = ["hv-recycle", "os-badnum", "os-branches", "sv-recycle-branches", "os-composite", "os-format", "os-invalid", "os-nil", "os-valid", "pv-recycle", "pv-recycle-invalid",
+CLASSES = ["hv-recycle", "os-badnum", "os-branches", "sv-recycle-branches", "sv-recycle-typecheck", "sv-recycle-swagger", "sv-recycle-itemscheck", "os-skipschemata", "os-composite", "os-format", "os-invalid", "os-nil", "os-valid", "pv-recycle", "pv-recycle-invalid",
            "sv-recycle-badnum", "sv-recycle-invalid", "sv-recycle-nil", "sv-recycle-valid"]
 
 
@@ -31,10 +31,14 @@ def run(tier, seed):
         (vh, "random", ["-seed", seed, "-n", n, "-len", ln], False),
         (vhd, "random-debugpools", ["-seed", seed + 1, "-n", n, "-len", ln], True),
         (vh, "random-4threads", ["-seed", seed + 2, "-n", n, "-len", ln, "-threads", 4], False),
+        # without poisoning: redeemed objects keep their NATURAL stale content (poison would mask a change whose effect
+        # depends on what a recycled object still holds, e.g. a clearing fast path keyed on empty lists)
+        (vh, "enumerated-unpoisoned", ["-seed", seed, "-in", hist_file, "-spec=false", "-poison=false"], False),
+        (vh, "random-unpoisoned", ["-seed", seed + 3, "-n", 3 * n, "-len", ln, "-spec=false", "-poison=false"], False),
     ]
-    common.parallel(lambda j: poolsfam.histories(check, j[0], j[1], j[2], full=j[3]), jobs, jobs=5)
-    check.coverage["rule"] = ("histories = sequences of calls over 17 classes (one-shot valid/invalid/nil data/failed json.Number conversion/composition/format; recycling schema, "
-                              "parameter and header validators used once; whole-spec validation valid/invalid) + GC steps. enumerated: every sequence of length <= %d over the 15 schema-level "
+    common.parallel(lambda j: poolsfam.histories(check, j[0], j[1], j[2], full=j[3]), jobs, jobs=len(jobs))
+    check.coverage["rule"] = ("histories = sequences of calls over 21 classes (one-shot valid/invalid/nil data/failed json.Number conversion/composition/format; recycling schema, "
+                              "parameter and header validators used once; whole-spec validation valid/invalid) + GC steps. enumerated: every sequence of length <= %d over the 19 schema-level "
                               "classes (TLC, Gen_Api). Each call's outcome (verdict, error set, warning set) must equal the outcome of the same call alone with nothing pooled (fresh mode); "
                               "redeemed objects are poisoned; the borrow/redeem stream of the production pools (redeem-only, borrow inferred) and of the debug pools (complete) is "
                               "validated by Trace_Pools.tla. non-trivial = distinct ordered pairs (previous class, class) executed." % L)
